@@ -1,3 +1,4 @@
+mod drive;
 mod exprcase;
 mod render;
 mod session;
@@ -64,12 +65,30 @@ fn replay(args: &[String]) -> i32 {
     0
 }
 
+/// bvh drive <sessions.ndjson> <trace.ndjson>
+fn drive_cmd(args: &[String]) -> i32 {
+    let file = std::fs::File::open(&args[0]).expect("sessions file");
+    let mut out = std::io::BufWriter::new(std::fs::File::create(&args[1]).expect("trace file"));
+    for line in std::io::BufReader::new(file).lines() {
+        let line = line.expect("read");
+        if line.trim().is_empty() {
+            continue;
+        }
+        let case: Value = serde_json::from_str(&line).expect("session json");
+        let rec = drive::run_session(&case);
+        out.write_all(serde_json::to_string(&rec).unwrap().as_bytes()).unwrap();
+        out.write_all(b"\n").unwrap();
+    }
+    0
+}
+
 fn main() {
     // panics inside the interpreter are data (caught per call); keep stderr quiet
     std::panic::set_hook(Box::new(|_| {}));
     let args: Vec<String> = std::env::args().collect();
     let code = match args.get(1).map(|s| s.as_str()) {
         Some("replay") => replay(&args[2..]),
+        Some("drive") => drive_cmd(&args[2..]),
         _ => {
             eprintln!("usage: bvh replay <cases.ndjson> <result.json>");
             2
